@@ -76,6 +76,16 @@ def build(blocks, strand, parent=None, force_compound=False):
     st = strand_of(strand)
     if len(blocks) == 1 and not force_compound:
         return SingleInterval(blocks[0][0], blocks[0][1], st, parent=parent)
+    # the constructor takes blocks in any listed order: as generated (ascending), descending, blocks that start together longest first, or
+    # rotated - chosen by the content so that replays agree
+    blocks = list(blocks)
+    v = (sum(b[1] for b in blocks) + len(blocks)) % 4
+    if v == 1:
+        blocks = blocks[::-1]
+    elif v == 2:
+        blocks = sorted(blocks, key=lambda b: (b[0], -b[1]))
+    elif v == 3:
+        blocks = blocks[len(blocks) // 2:] + blocks[:len(blocks) // 2]
     starts, ends = [b[0] for b in blocks], [b[1] for b in blocks]
     if (sum(starts) + len(starts)) % 3 == 0:     # a third of the inputs (chosen by content) hand the coordinates over as tuples
         starts, ends = tuple(starts), tuple(ends)
